@@ -21,7 +21,9 @@ import (
 	computepb "k3l.io/go-eigentrust/pkg/api/pb/compute"
 	tmpb "k3l.io/go-eigentrust/pkg/api/pb/trustmatrix"
 	tvpb "k3l.io/go-eigentrust/pkg/api/pb/trustvector"
+	"k3l.io/go-eigentrust/pkg/api/openapi"
 	"k3l.io/go-eigentrust/pkg/basic"
+	oapiserver "k3l.io/go-eigentrust/pkg/basic/server/oapi"
 )
 
 // C15: adversarial and byte-level input to every front-end; nothing may panic, hang (for
@@ -378,7 +380,18 @@ func genC15(r *Rng, tier string) []*Case {
 		case 3:
 			t = strings.Repeat(",", r.Intn(50)) + "\n" + t
 		}
-		what := r.Intn(5)
+		// indices of 7-19 digits are valid and make the readers allocate O(index) memory (known finding,
+		// exercised in the child process under an address-space limit): keep them out of the in-process stream
+		t = longDigits.ReplaceAllStringFunc(t, func(d string) string {
+			if len(d) >= 20 {
+				return d
+			}
+			return d[:3]
+		})
+		what := r.Intn(6)
+		if what == 5 {
+			what = 6
+		}
 		bc := c15Bytes{What: what, Text: t}
 		switch what {
 		case 3:
@@ -521,6 +534,38 @@ func runC15(c *Case) error {
 				returned = err == nil
 				panicked = strings.Contains(stderr, "panic:") || strings.Contains(stderr, "goroutine ")
 				c.setObs(map[string]interface{}{"stderr": tail(stderr, 500), "err": fmt.Sprint(err)})
+			case 6:
+				// server-side CSV behind objectstorage file:// references (a server started with --use-file-uri)
+				dir, _ := os.MkdirTemp(gOutDir, "c15-")
+				defer os.RemoveAll(dir)
+				lt := filepath.Join(dir, "lt.csv")
+				pt := filepath.Join(dir, "pt.csv")
+				_ = os.WriteFile(lt, []byte("i,j,v\n"+in.Text), 0o644)
+				_ = os.WriteFile(pt, []byte("i,v\n"+in.Text), 0o644)
+				e := echo.New()
+				e.HideBanner = true
+				srv, err := oapiserver.NewStrictServerImpl(context.Background())
+				if err != nil {
+					panic(err)
+				}
+				srv.UseFileURI = true
+				openapi.RegisterHandlersWithBaseURL(e, openapi.NewStrictHandler(srv, nil), "/basic/v1")
+				for _, body := range []string{
+					`{"localTrust":{"scheme":"objectstorage","url":"file://` + lt + `"},"maxIterations":50}`,
+					`{"localTrust":{"scheme":"inline","size":3,"entries":[{"i":0,"j":1,"v":1}]},"preTrust":{"scheme":"objectstorage","url":"file://` + pt + `"},"maxIterations":50}`,
+					`{"localTrust":{"scheme":"objectstorage","url":"file://` + lt + `.missing"}}`,
+				} {
+					r := httpDoFuel(e, "POST", "/basic/v1/compute", body, "application/json", c15Fuel)
+					if r.Panic != "" {
+						panicked = true
+					}
+					if r.Hang || !(r.Code == 200 || r.Code == 400 || (r.Code == 500 && hasHugeNumber(in.Text))) || !json.Valid([]byte(r.Body)) {
+						returned = false
+					}
+					if r.Code == 200 && strings.Contains(r.Body, `"i":-`) {
+						returned = false // a score for a negative peer index
+					}
+				}
 			case 5:
 				// every gRPC handler on the empty message and on messages whose sub-messages are absent
 				// (what a client that leaves fields out puts on the wire)
@@ -589,6 +634,8 @@ func runC15(c *Case) error {
 	}
 	return nil
 }
+
+var longDigits = regexp.MustCompile(`[0-9]{7,}`)
 
 var numRe = regexp.MustCompile(`-?[0-9]+(\.[0-9]+)?([eE][-+]?[0-9]+)?`)
 
